@@ -469,3 +469,29 @@ M("C15", "twin-mutation-step-counter-loop", MUT, "        for index, ind in enum
   "        produced = 0\n        for ind in population:\n            if produced >= target_size:\n                break\n            v = random.random_float(0, 1)\n            if v <= self.probability:\n                mutated = representation.mutate(random, ind.genotype)\n                nind = self.wrap(representation, mutated)\n                yield nind\n                produced += 1\n            else:\n                yield ind\n                produced += 1", "", expect="silent")
 M("C16", "parallel-shares-truncated", COMB, "            [int(round(w * len(population) / total, 0)) for w in self.weights],", "            [int(w / total * len(population)) for w in self.weights],", "C16.R4")
 M("C16", "twin-parallel-shares-rounded-proportions", COMB, "            [int(round(w * len(population) / total, 0)) for w in self.weights],", "            [int(round(w / total * len(population))) for w in self.weights],", "", expect="silent")
+
+# ---- round 5 rules
+HCS = "geneticengine/algorithms/hill_climbing.py"
+XOS = "geneticengine/algorithms/gp/operators/crossover.py"
+M("C14", "hc-two-batches-per-check", HCS, "                self.tracker.evaluate([ind])\n            else:\n", "                self.tracker.evaluate([ind])\n            if True:\n", "C14.R2")
+M("C14", "twin-hc-seed-before-loop-shape", HCS, "            current_ind = self.tracker.get_best_individual()\n        return self.tracker.get_best_individual()",
+  "            best_so_far = self.tracker.get_best_individual()\n            current_ind = best_so_far\n        return self.tracker.get_best_individual()", "", expect="silent")
+M("C08", "register-type-subclass-registry", GRM, "        for st in self.considered_subtypes:\n            if issubclass(st, ty):\n                self.register_type(st)",
+  "        for st in type.__subclasses__(ty):\n            if st in self.considered_subtypes:\n                self.register_type(st)", "C08.R3")
+M("C19", "stack-nonterminals-constant-weight", STK, "                [weights.get(x, 1) for x in all_stack_types],", "                [1 if x in g.alternatives else weights.get(x, 1) for x in all_stack_types],", "C19.R3")
+M("C19", "twin-stack-weights-hoisted-list", STK, "                [weights.get(x, 1) for x in all_stack_types],", "                [weights.get(t, 1) for t in all_stack_types],", "", expect="silent")
+M("C15", "crossover-odd-child-from-extra-pair", XOS, "        if (target_size // 2) * 2 < target_size:\n            yield npopulation[0]", "        if (target_size // 2) * 2 < target_size and len(npopulation) > 1:\n            yield npopulation[0]", "C15.R2")
+
+# ---- round 6: multi-path helpers joined in the affine engine, template-method choosers analysed per receiving class
+_WIDE_OLD = "            half = width // 2\n            n = self.random.randint(0, 10)\n            e = self.random.randint(0, round(log10(width)))\n\n            extra = pow(n, e) % (half + 1)\n            extra = extra if self.random_bool() else -extra\n            v = min_int + half + extra\n            return v"
+_WIDE_HELPER = "\n    def _signed_offset(self, width: int) -> int:\n        base = self.random.randint(0, 10)\n        exponent = self.random.randint(0, round(log10(width)))\n        magnitude = pow(base, exponent) %% (width // 2 + %s)\n        return magnitude if self.random_bool() else -magnitude\n\n    def random_float(self) -> float:\n"
+M("C18", "twin-decider-signed-offset-helper", INI, _WIDE_OLD, "            return min_int + width // 2 + self._signed_offset(width)", "", expect="silent",
+  extra=[(INI, "\n    def random_float(self) -> float:\n", _WIDE_HELPER % "1")])
+M("C18", "decider-signed-offset-helper-wider", INI, _WIDE_OLD, "            return min_int + width // 2 + self._signed_offset(width)", "C18.R1",
+  extra=[(INI, "\n    def random_float(self) -> float:\n", _WIDE_HELPER % "2")])
+_GROW_OLD = "        alternatives = [\n            x for x in alternatives if self.grammar.get_distance_to_terminal(x) <= (self.max_depth - ctx.depth)\n        ]\n        return self.random.choice(alternatives)\n"
+_GROW_NEW = "        budget = self.max_depth - ctx.depth\n        fitting = [x for x in alternatives if budget >= self.grammar.get_distance_to_terminal(x)]\n        return self.random.choice(self.preferred_alternatives(fitting, budget, ctx) or fitting)\n\n    def preferred_alternatives(self, fitting, budget, ctx):\n        return []\n"
+_FULL_OLD = "    def choose_production_alternatives(self, ty: type, alternatives: list[type], ctx: LocalSynthesisContext) -> type:\n        assert len(alternatives) > 0, \"No alternatives presented\"\n        if ctx.depth <= self.max_depth:\n            c_alternatives = [\n                x\n                for x in alternatives\n                if (\n                    x in self.grammar.recursive_prods\n                    and self.grammar.get_distance_to_terminal(x) < (self.max_depth - ctx.depth)\n                )\n                or self.grammar.get_distance_to_terminal(x) == (self.max_depth - ctx.depth - 1)\n            ]\n        else:\n            c_alternatives = []\n        if not c_alternatives:\n            c_alternatives = [\n                x for x in alternatives if self.grammar.get_distance_to_terminal(x) <= (self.max_depth - ctx.depth)\n            ]\n        return self.random.choice(c_alternatives)\n"
+_FULL_NEW = "    def preferred_alternatives(self, fitting, budget, ctx):\n        if budget < 0:\n            return []\n        return [\n            x\n            for x in fitting\n            if (x in self.grammar.recursive_prods and self.grammar.get_distance_to_terminal(x) < budget)\n            or self.grammar.get_distance_to_terminal(x) == budget - %s\n        ]\n"
+M("C04", "twin-full-decider-template-method", INI, _GROW_OLD, _GROW_NEW, "", expect="silent", extra=[(INI, _FULL_OLD, _FULL_NEW % "1")])
+M("C04", "full-decider-template-method-frontier-two-below", INI, _GROW_OLD, _GROW_NEW, "C04.R3", extra=[(INI, _FULL_OLD, _FULL_NEW % "2")])
